@@ -73,7 +73,8 @@ def gen_base(rng, tier, index):
             "map_from_file": rng.random() < 0.5, "pace": rng.choice([0, 0, 0.0005]), "calls": [],
             "first_follows_parent": index % 2 == 0,
             "thread_reads_during_fork": (index // 4) % 9 if index % 4 == 1 else None,
-            "iter_across_fork": rng.randrange(50) if index % 4 in (0, 3) else None}
+            "iter_across_fork": rng.randrange(50) if index % 4 in (0, 3) else None,
+            "other_object": [None, "parent_before_fork", "child_first"][index % 3]}
 
 
 def findings(case, result, res):
